@@ -270,6 +270,9 @@ def run(ctx) -> None:
     structural = [fd for fd in ctx.findings if fd.rule in ("R09a", "R09b")]
     for kind, s in bad.items():
         msg = ("Unpause restored a capture that survived the end of its pause or a run boundary" if kind == "old"
+               else "a pause of the running run ended with the safe values it had applied still in place: nothing had been captured "
+                    "for this pause (e.g. a Pause that executed while the engine was already paused by an error skipped the "
+                    "capture), so Unpause restored nothing" if kind == "none"
                else "Unpause restored safe values that had been captured while a pause was already in effect")
         hist = " > ".join(ex.trace(s))
         if structural:
